@@ -311,13 +311,22 @@ type node struct {
 	keys []string
 }
 
+// every context marshaler of one frame shares one field context, as the scalar elements of a list do
+var frameCtx = graphql.WithFieldContext(
+	graphql.WithResponseContext(context.Background(), graphql.DefaultErrorPresenter, graphql.DefaultRecover),
+	&graphql.FieldContext{Field: graphql.CollectedField{Field: &ast.Field{Alias: "f", Name: "f"}}})
+
 func genNode(r *rng.R, depth int) node {
-	k := r.Below(7)
-	if depth <= 0 && k >= 5 {
+	k := r.Below(8)
+	if depth <= 0 && (k == 5 || k == 6) {
 		k = r.Below(5)
 	}
 	n := node{kind: k}
 	switch k {
+	case 7:
+		// a context marshaler that fails (Float NaN / +Inf / -Inf): the adapter reports the error and must
+		// still write a value (null)
+		n.i = int64(r.Below(3))
 	case 3:
 		n.s = randString(r)
 	case 4:
@@ -353,6 +362,9 @@ func (n node) marshaler() graphql.Marshaler {
 			a = append(a, k.marshaler())
 		}
 		return a
+	case 7:
+		f := []float64{math.NaN(), math.Inf(1), math.Inf(-1)}[n.i]
+		return graphql.WrapContextMarshaler(frameCtx, graphql.MarshalFloatContext(f))
 	default:
 		var fields []graphql.CollectedField
 		for _, k := range n.keys {
@@ -371,7 +383,7 @@ func (n node) marshaler() graphql.Marshaler {
 // canonical text of the node for the Lean frame model: prefix notation
 func (n node) enc(b *strings.Builder) {
 	switch n.kind {
-	case 0:
+	case 0, 7:
 		b.WriteString("n")
 	case 1:
 		b.WriteString("t")
@@ -399,7 +411,7 @@ func (n node) enc(b *strings.Builder) {
 // expected decoded value (Go side): what encoding/json yields for the intended value
 func (n node) expect() any {
 	switch n.kind {
-	case 0:
+	case 0, 7:
 		return nil
 	case 1:
 		return true
